@@ -16,7 +16,7 @@ import (
 )
 
 func isPersistOp(k world.OpKind) bool {
-	return k == world.OpPersist || k == world.OpReload || k == world.OpReloadJSON || k == world.OpKeep
+	return k == world.OpPersist || k == world.OpReload || k == world.OpReloadJSON || k == world.OpKeep || k == world.OpPersistFail
 }
 
 func codecFor(cfg *world.Config) *ref.Codec { return &ref.Codec{Format: cfg.Format} }
